@@ -12,11 +12,14 @@ type VarPool struct {
 }
 
 func NewVarPool() *VarPool {
-	vars := make(map[string]int, len(goPredeclaredIdentifiers)+len(goReservedKeywords))
+	vars := make(map[string]int, len(goPredeclaredIdentifiers)+len(goReservedKeywords)+len(generatorLocalIdentifiers))
 	for _, id := range goPredeclaredIdentifiers {
 		vars[id] = 1
 	}
 	for _, id := range goReservedKeywords {
+		vars[id] = 1
+	}
+	for _, id := range generatorLocalIdentifiers {
 		vars[id] = 1
 	}
 
